@@ -56,24 +56,30 @@ Definition trnorm44_m (thr : T) (A : M44 T) : option (M44 T) :=
   end.
 
 (* vectors.unittwist(S, tol=10):  if iszerovec(S, tol=tol): return None;  v = S[0:3]; w = S[3:6];
-   if iszerovec(w): th = norm(v) else: th = norm(w);  return S / th
+   if iszerovec(w): th = norm(v); S = np.r_[v, 0, 0, 0]  else: th = norm(w);  return S / th
+   (the irrotational branch zeroes the rotational part since fix 3bd9c1c)
    iszerovec(v, tol=10) = np.linalg.norm(v) < tol*_eps.   thrS from unittwist's tol, thrw from iszerovec's default *)
 Definition twist_theta_m (thrS thrw : T) (S : V6 T) : option T :=
   if ltb O (norm6 S) thrS then None
   else if ltb O (norm3 O (tw_w S)) thrw then Some (norm3 O (tw_v S)) else Some (norm3 O (tw_w S)).
+(* the vector that is divided by th *)
+Definition twist_num_m (thrw : T) (S : V6 T) : V6 T :=
+  if ltb O (norm3 O (tw_w S)) thrw then v6 (tw_v S) (0,0,0) else S.
 Definition unittwist_m (thrS thrw : T) (S : V6 T) : option (V6 T) :=
-  match twist_theta_m thrS thrw S with Some th => Some (vdiv6 S th) | None => None end.
+  match twist_theta_m thrS thrw S with Some th => Some (vdiv6 (twist_num_m thrw S) th) | None => None end.
 (* unittwist_norm returns (S / th, th), or (None, None) *)
 Definition unittwist_norm_m (thrS thrw : T) (S : V6 T) : option (V6 T * T) :=
-  match twist_theta_m thrS thrw S with Some th => Some (vdiv6 S th, th) | None => None end.
+  match twist_theta_m thrS thrw S with Some th => Some (vdiv6 (twist_num_m thrw S) th, th) | None => None end.
 
-(* vectors.unittwist2(S):  v = S[0:2]; w = S[2];  if iszero(w): th = norm(v) else: th = abs(w);  return S / th
+(* vectors.unittwist2(S):  v = S[0:2]; w = S[2];  if iszero(w): th = norm(v); S = np.r_[v, 0]  else: th = abs(w);  return S / th
    iszero(v, tol=10) = abs(v) < tol*_eps.   NO zero guard in the code: total *)
 Definition twist2_theta_m (thrw : T) (S : V3 T) : T :=
   let '(v0,v1,w) := S in if ltb O (abs_ O w) thrw then norm2 (v0,v1) else abs_ O w.
-Definition unittwist2_m (thrw : T) (S : V3 T) : V3 T := vdiv3 S (twist2_theta_m thrw S).
+Definition twist2_num_m (thrw : T) (S : V3 T) : V3 T :=
+  let '(v0,v1,w) := S in if ltb O (abs_ O w) thrw then (v0,v1,0) else S.
+Definition unittwist2_m (thrw : T) (S : V3 T) : V3 T := vdiv3 (twist2_num_m thrw S) (twist2_theta_m thrw S).
 Definition unittwist2_norm_m (thrw : T) (S : V3 T) : V3 T * T :=
-  (vdiv3 S (twist2_theta_m thrw S), twist2_theta_m thrw S).
+  (vdiv3 (twist2_num_m thrw S) (twist2_theta_m thrw S), twist2_theta_m thrw S).
 
 (* vectors.angdiff:  np.mod(a + math.pi, 2*math.pi) - math.pi      (a - b in place of a for two arguments)
    np.mod(x, y) for y > 0 is x - y*floor(x/y);  p stands for math.pi *)
@@ -107,5 +113,5 @@ Definition trnorm23_m (thr : T) (A : M33 T) : option (M33 T) :=
 End Norm.
 
 #[export] Hint Unfold vdiv2 vdiv3 vdiv4 vdiv6 norm2 norm4 norm6 tw_v tw_w unitvec_m unitvec_norm_m qunit_m trnorm33_m trnorm44_m
-  twist_theta_m unittwist_m unittwist_norm_m twist2_theta_m unittwist2_m unittwist2_norm_m pymod angdiff_p angdiff1_m
+  twist_theta_m twist_num_m unittwist_m unittwist_norm_m twist2_theta_m twist2_num_m unittwist2_m unittwist2_norm_m pymod angdiff_p angdiff1_m
   angdiff2_m unitvec2_m trnorm22_m trnorm23_m : smlin.
